@@ -95,9 +95,10 @@ try:
                 if os.path.exists(cf):
                     base = set(json.load(open(cf)))
                 else:
-                    sh("git stash -q", cwd=SCR)
+                    # (no git stash: the stash list is shared by all worktrees of /repo)
+                    sh("git checkout -- . && git clean -fdq", cwd=SCR)
                     b, _ = failing_tests(pkg)
-                    sh("git stash pop -q", cwd=SCR)
+                    sh(f"git apply {patch}", cwd=SCR)
                     base = b
                     json.dump(sorted(base), open(cf, "w"))
                 nf = sorted(patched - base - KNOWN_PRISTINE)
